@@ -156,7 +156,9 @@ class SourceFile:
 
         self._check()
 
-        code = self.filename.read_text("utf-8")
+        # newline="" preserves the line endings (\r\n) of the file
+        with open(self.filename, encoding="utf-8", newline="") as file:
+            code = file.read()
 
         format_whole_file = enforce_formatting() or code == format_code(
             code, self.filename
